@@ -290,6 +290,7 @@ def _run_nop(case: dict, env: core.Env) -> None:
             cur.execute("ALTER TABLE ORDERS_C SET COMMENT = 'v2b'")
             cur.execute("CREATE OR REPLACE TABLE ORDERS_C (ID INT, S VARCHAR(5)) COMMENT = 'v3 of orders'")
         matched_any = False
+        reuse: Any = None
         for s in case["stmts"]:
             params = None
             if "%s" in s:
@@ -298,7 +299,12 @@ def _run_nop(case: dict, env: core.Env) -> None:
             if qmark and params:
                 s = effective = s.replace("%s", "?")
             matches = any(re.match(p, effective, re.IGNORECASE) for p in pats)
-            cura, curb = ca.cursor(), cb.cursor()
+            # odd cases keep using one cursor per twin (whose earlier results were fetched), even cases a new one per statement
+            if len(case["stmts"]) % 2 and reuse:
+                cura, curb = reuse
+            else:
+                cura, curb = ca.cursor(), cb.cursor()
+            reuse = (cura, curb)
             if matches:
                 matched_any = True
                 env.count("cmp_nop_match")
